@@ -204,6 +204,22 @@ def _random_job(k):
         noise = 1e-9 * float(np.max(np.abs(res3[1])))
         if sl > 50 * noise and not (float(np.max(np.abs(dl - res3[2]))) <= 1e-6 * sl + noise):
             bad.append("frame:light_load_lost_next_to_heavy_load")
+    # geometric similarity down to model scale (elements shorter than a millimetre): lengths x k, areas x k^2, second moments x k^4,
+    # forces x k^2, moments x k^3  =>  translations x k, rotations unchanged (no absolute length enters the element)
+    ksc = 1.0e-4
+    l7 = rng.choice([-1.0, 1.0], size=(ny, 6)) * rng.uniform(1e8, 1e9, size=(ny, 6))  # every scaled entry (moments x k^3) far above the 1e-6 zeroing threshold
+    prob.set_val("loads", l7)
+    prob.run_model()
+    d7 = np.array(prob.get_val("disp"))
+    mesh_s = np.array(surf["mesh"]) * ksc
+    surf_s = tube_surface(mesh_s, w, sym=sym, E=E, G=G)
+    ls = np.concatenate([l7[:, :3] * ksc**2, l7[:, 3:] * ksc**3], axis=1)
+    ps = _beam_model(surf_s, nodes * ksc, A * ksc**2, Iy * ksc**4, Iz * ksc**4, J * ksc**4, ls)
+    dsm = np.array(ps.get_val("disp"))
+    # (tube sections only: the random wingbox-like property sets have stiffness ratios of 1e4 and more, whose conditioning
+    # next to the fixed 1e9 clamp weight changes with the scale)
+    if not wingbox and not (float(np.max(np.abs(dsm[:, :3] - ksc * d7[:, :3]))) <= 1e-5 * ksc * float(np.max(np.abs(d7[:, :3])))) or (not wingbox and not (float(np.max(np.abs(dsm[:, 3:] - d7[:, 3:]))) <= 1e-5 * float(np.max(np.abs(d7[:, 3:]))))):
+        bad.append("frame:not_geometrically_similar_at_model_scale")
     # tube model: rotating structure and loads together rotates the response
     if not wingbox:
         ang = rng.uniform(-0.6, 0.6, 3)
